@@ -83,7 +83,7 @@ func (fc *ProtoForkChoice) UpdateJustified(ctx context.Context, trigger Root, ju
 	}
 	if fc.pin != nil && trigger != fc.pin.Root {
 		// check trigger against pin, to ensure no justification/finalization of data that conflicts with the pin.
-		if unknown, inSubtree := fc.InSubtree(fc.pin.Root, trigger); unknown {
+		if unknown, inSubtree := fc.protoArray.InSubtree(fc.pin.Root, trigger); unknown {
 			return fmt.Errorf("cannot justify/finalize with unknown trigger when forkchoice is pinned")
 		} else if !inSubtree {
 			return fmt.Errorf("cannot justify/finalize outside of pinned forkchoice tree")
@@ -115,7 +115,7 @@ func (fc *ProtoForkChoice) updateJustified(finalized Checkpoint, justified Check
 
 	// check if new finalized checkpoint is valid
 	if fc.finalized != finalized {
-		if unknown, inSubtree := fc.InSubtree(fc.finalized.Root, finalized.Root); unknown {
+		if unknown, inSubtree := fc.protoArray.InSubtree(fc.finalized.Root, finalized.Root); unknown {
 			return fmt.Errorf("unknown finalized checkpoint: %s", finalized)
 		} else if !inSubtree || fc.finalized.Epoch > finalized.Epoch {
 			return fmt.Errorf("new finalized checkpoint %s is outside of finalized subtree: %s",
@@ -123,7 +123,7 @@ func (fc *ProtoForkChoice) updateJustified(finalized Checkpoint, justified Check
 		}
 	}
 	if fc.justified != justified {
-		if unknown, inSubtree := fc.InSubtree(fc.finalized.Root, justified.Root); unknown {
+		if unknown, inSubtree := fc.protoArray.InSubtree(fc.finalized.Root, justified.Root); unknown {
 			return fmt.Errorf("unknown justified checkpoint: %s", justified)
 		} else if !inSubtree || fc.finalized.Epoch > justified.Epoch {
 			return fmt.Errorf("new justified checkpoint %s is outside of finalized subtree: %s",
